@@ -698,3 +698,40 @@ Proof.
       destruct (Z.eqb_spec (i_code i) 101); [contradiction|reflexivity]. }
     rewrite H1, Hrc, Hrh. f_equal. eapply IH; try eassumption. cbn in Hf. lia.
 Qed.
+
+(* 101 Switching Protocols with Upgrade + "Connection: upgrade": the head is delivered like any
+   other, and Body hands the caller exactly the bytes that follow it, until the peer closes *)
+Theorem h1_upgrade_delivery meth m sizes reason fs u us rest :
+  reason_ok reason = true -> fields_ok fs -> pragma_neutral (map field_of fs) ->
+  no_field K_TE (map field_of fs) -> no_field K_CL (map field_of fs) ->
+  values_of K_UPGRADE (map field_of fs) = u :: us -> u <> [] ->
+  header_values_contain_token (values_of K_CONNECTION (map field_of fs)) (bs "Upgrade") = true ->
+  wants_close (map field_of fs) = false ->
+  exists r,
+    h1_exchange meth m sizes (render_head 101 reason fs ++ rest) =
+      Some {| d_resp := r; d_body := switch_body r rest;
+              d_api := run_mode m 101 sizes {| rd_rem := rest; rd_end := BEof |} |} /\
+    r_code r = 101%Z /\ r_header r = collect (map field_of fs).
+Proof.
+  intros Hr Hf Hp Hte Hcl Hup Hu Hconn Hnc.
+  set (F := map field_of fs) in *.
+  assert (Hrule : no_body_by_rule 101 meth = true).
+  { unfold no_body_by_rule. cbn. now rewrite orb_true_r. }
+  destruct (read_transfer_nobody 101 reason meth F [] Hrule Hte Hcl (or_introl eq_refl)) as (cl & close & E).
+  assert (Hh : read_response_head meth br_size (render_head 101 reason fs ++ rest) =
+               inr ({| r_proto := H11; r_code := 101; r_status := status_text 101 reason;
+                       r_header := collect (after_conn F); r_content_length := cl; r_chunked := false;
+                       r_close := close; r_framing := FrNone; r_trailer_declared := [] |}, rest)).
+  { rewrite read_head; [|lia|assumption..]. fold F. now rewrite E. }
+  assert (Hac : after_conn F = F) by (unfold after_conn; now rewrite Hnc).
+  exists {| r_proto := H11; r_code := 101; r_status := status_text 101 reason;
+            r_header := collect (after_conn F); r_content_length := cl; r_chunked := false;
+            r_close := close; r_framing := FrNone; r_trailer_declared := [] |}.
+  split; [|split; [reflexivity|cbn [r_header]; now rewrite Hac]].
+  unfold h1_exchange, read_final_response. cbn [read_final]. rewrite Hh.
+  cbn [r_code]. change (is_1xx_nonterminal 101) with false. cbn iota.
+  unfold final_body, is_switch. cbn [r_code r_header Z.eqb andb]. rewrite Hac, !hget_collect.
+  rewrite Hup. destruct u as [|u0 u']; [contradiction|]. cbn [is_nil negb andb].
+  destruct (values_of K_CONNECTION F) as [|c0 cs] eqn:Ec; [discriminate Hconn|].
+  rewrite Hconn. cbn [body_reader switch_body b_data b_end berr_clean r_trailer_declared]. reflexivity.
+Qed.
